@@ -54,7 +54,7 @@ ENUM_METHODS = {("PictureTypeCode", "is_disposable"): "is_disposable", ("Macrobl
 VLC_TABLES = {"MCBPC_I_TABLE": ("mcbpc_i_table", "BlockPatternEntry"), "MCBPC_P_TABLE": ("mcbpc_p_table", "BlockPatternEntry"),
               "MODB_TABLE": ("modb_table", ("tup", ("bool", "bool"))), "CBPY_TABLE_INTRA": ("cbpy_table_intra", ("opt", ("list", "bool"))),
               "MVD_TABLE": ("mvd_table", ("opt", "HalfPel")), "TCOEF_TABLE": ("tcoef_table", ("opt", "ShortTCoefficient"))}
-COQ_OF_TYPE = {"DecodedPicture": "decoded_picture", "TCoefficient": "tcoef", "Block": "block", "ShortTCoefficient": "short_tcoef", "IntraDc": "Z",
+COQ_OF_TYPE = {"H263State": "state", "PictureMap": "pmap", "DecodedPicture": "decoded_picture", "TCoefficient": "tcoef", "Block": "block", "ShortTCoefficient": "short_tcoef", "IntraDc": "Z",
                "MacroblockType": "mbtype", "BlockPatternEntry": "bpe", "Macroblock": "macroblock", "HalfPel": "Z", "MotionVector": "(Z * Z)", "CodedBlockPattern": "cbp",
                "SourceFormat": "source_format", "PictureTypeCode": "ptype_code", "PixelAspectRatio": "par_t",
                "MotionVectorRange": "mvrange", "BPictureQuantizer": "Z"}
@@ -348,6 +348,10 @@ class PEmitter:
             return k(zlit(e[1]), self.tvar_default(), env)
         if kind == "bool":
             return k("true" if e[1] else "false", "bool", env)
+        if kind == "float":
+            if re.match(r"^\d+\.0$", e[1]):
+                return k("(d_of_Z %s)" % e[1][:-2], "f64", env)
+            raise Untranslatable("floating-point literal %s" % e[1])
         if kind == "var":
             name = e[1]
             if name == "None":
@@ -399,6 +403,8 @@ class PEmitter:
             return self.array_lit(e[1], 0, [], env, k)
         if kind == "if":
             return self.if_expr(e, env, k, want)
+        if kind == "iflet":
+            return self.iflet(e, env, k, want)
         if kind == "match":
             return self.match_expr(e, env, k, want)
         if kind == "block":
@@ -458,10 +464,16 @@ class PEmitter:
 
     def cast(self, e, env, k):
         target = norm(e[2])
+        if target == "f64":
+            return self.expr(e[1], env, lambda a, t, env: k("(d_of_Z %s)" % a, "f64", env) if is_int(resolve(t)) else self.bad("cast of %r to f64" % (t,)))
         if not is_int(target):
             raise Untranslatable("cast to %r" % (target,))
         def after(a, t, env):
             t = resolve(t)
+            if t == "f64":
+                if target == "usize":
+                    return k("(d_to_usize %s)" % a, target, env)
+                raise Untranslatable("cast of f64 to %s" % target)
             if isinstance(t, TVar):
                 # the source type is whatever the read delivered; casting fixes nothing about it: keep the wrap
                 return k("(wrap %s %s)" % (COQTY[target], a), target, env)
@@ -480,6 +492,9 @@ class PEmitter:
 
     def binary(self, e, env, k, want):
         op, l, r = e[1], e[2], e[3]
+        if op == "&" and r[0] == "un" and r[1] == "!":
+            return self.expr(l, env, lambda a, ta, env: self.expr(r[2], env, lambda b, tb, env:
+                             (k("(Z.ldiff %s %s)" % (a, b), ta, env) if self.is_flags(resolve(ta)) and self.is_flags(resolve(tb)) else self.bad("`& !` on non-flags"))))
         if op in ("==", "!=") and r[0] == "call" and r[1] == ("var", "Some") and len(r[2]) == 1 and r[2][0][0] == "int":
             lit = r[2][0][1]
             def cmp(a, t, env):
@@ -504,6 +519,8 @@ class PEmitter:
 
     def binop(self, op, a, ta, b, tb, env, k):
         ta, tb = resolve(ta), resolve(tb)
+        if ta == "f64" and tb == "f64" and op == "/":
+            return k("(ddiv %s %s)" % (a, b), "f64", env)
         if op in ("==", "!=", "<", "<=", ">", ">="):
             if ta == "bool" and tb == "bool":
                 c = "(Bool.eqb %s %s)" % (a, b)
@@ -543,8 +560,8 @@ class PEmitter:
                 if e[2] not in ft:
                     raise Untranslatable("field %s of Picture" % e[2])
                 return k("(%s %s)" % (e[2], a), self.norm_field(ft[e[2]]), env)
-            if isinstance(t, tuple) and t[0] == "tup" and e[2].isdigit():
-                raise Untranslatable("tuple projection")
+            if isinstance(t, tuple) and t[0] == "tup" and e[2].isdigit() and len(t[1]) == 2:
+                return k("(%s %s)" % ("fst" if e[2] == "0" else "snd", a), t[1][int(e[2])], env)
             raise Untranslatable("field access .%s on %r" % (e[2], t))
         return self.expr(e[1], env, after)
 
@@ -636,6 +653,14 @@ class PEmitter:
                     return "let* (%s, %s) := %s %s %s in\n  %s" % (v, r2, cname, " ".join(acc), env["$reader"][0], k(v, rty, env2))
                 return self.expr(args[i], env, lambda a, t, env: go(i + 1, acc + [a], env), ptys[i - 1])
             return go(1, [], env)
+        if inner[0] == "mcall" and inner[1] == ("var", "self") and inner[2] == "parse_picture" and len(inner[3]) == 2 and inner[3][0] == ("var", "reader"):
+            # H263State::parse_picture is `decode_picture(reader, self.decoder_options, previous_picture)`; decode_picture is
+            # translated and bridged on its own (bridge_p_decode_picture), the model's function stands for it here
+            def pp(a, t, env):
+                v, r2 = self.fresh("v"), self.fresh("r")
+                env2 = dict(env); env2["$reader"] = (r2, "reader")
+                return "let* (%s, %s) := decode_picture (st_opts %s) %s %s in\n  %s" % (v, r2, env["self"][0], a, env["$reader"][0], k(v, ("opt", "Picture"), env2))
+            return self.expr(inner[3][1], env, pp)
         if inner[0] == "call" and inner[1] == ("var", "decode_pei") and inner[2] == [("var", "reader")]:
             # the PEI / PSUPP loop is not translated: the model's fuelled recursion stands for it
             v, r2 = self.fresh("v"), self.fresh("r")
@@ -856,8 +881,33 @@ class PEmitter:
                     return k(a, "MotionVector", env)
                 raise Untranslatable(".into() on %r" % (t,))
             return self.expr(recv, env, into)
+        if name == "map" and len(args) == 1 and args[0][0] == "closure" and len(args[0][1]) == 1 and args[0][1][0][0] == "pid":
+            clo = args[0]
+            pv = clo[1][0][1]
+            def mapped(a, t, env):
+                t = resolve(t)
+                if not (isinstance(t, tuple) and t[0] == "opt"):
+                    raise Untranslatable(".map on %r" % (t,))
+                v = self.fresh(pv)
+                env2 = dict(env); env2[pv] = (v, t[1])
+                h = {}
+                def cap(b, tb, env3):
+                    h["t"] = tb
+                    return b
+                body = self.expr(clo[2], env2, cap)
+                if "\n" in body:
+                    raise Untranslatable("effects inside a closure")
+                return k("(match %s with Some %s => Some %s | None => None end)" % (a, v, body), ("opt", h["t"]), env)
+            return self.expr(recv, env, mapped)
+        if recv == ("var", "self") and name in ("get_last_picture", "get_reference_picture") and not args and "self" in env:
+            # translated and bridged on their own (p_get_last_picture = Ok (get_last_picture s))
+            return k("(%s %s)" % (name, env["self"][0]), ("opt", "DecodedPicture"), env)
         def after(a, t, env):
             t = resolve(t)
+            if t == "SourceFormat" and name == "into_width_and_height" and not args:
+                return k("(into_width_and_height %s)" % a, ("opt", ("tup", ("u16", "u16"))), env)
+            if t == "f64" and name == "ceil" and not args:
+                return k("(dceil %s)" % a, "f64", env)
             if isinstance(t, str) and (t, name) in ENUM_METHODS and not args:
                 return k("(%s %s)" % (ENUM_METHODS[(t, name)], a), "bool", env)
             if t == "PictureMap" and name == "get" and len(args) == 1:
@@ -1272,6 +1322,19 @@ class PEmitter:
             e_code = call(env) if els is None else (self.if_stmt(els, env, lambda env2: call(env2)) if els[0] == "if" else self.block(els, env, lambda a, t, env2: call(env2)))
             return "if %s then (%s) else (%s)" % (c, t_code, e_code)
         return self.expr(c_e, env, with_cond, "bool")
+
+    def iflet(self, e, env, k, want):
+        """`if let Some(x) = E { A } else { B }` is `match E { Some(x) => A, None => B }`"""
+        pat, subject, thn, els = e[1], e[2], e[3], e[4]
+        if not (pat[0] == "pctor" and pat[1] == ["Some"] and len(pat[2]) == 1) or els is None:
+            raise Untranslatable("if let with this pattern")
+        arms = [(pat, None, thn), (("pid", "None"), None, els)]
+        def on(a, t, env):
+            t = resolve(t)
+            if not (isinstance(t, tuple) and t[0] == "opt"):
+                raise Untranslatable("if let on %r" % (t,))
+            return self.match_option(a, t, arms, env, k, want)
+        return self.expr(subject, env, on)
 
     def if_expr(self, e, env, k, want):
         if e[3] is None:
@@ -2034,6 +2097,35 @@ def gen_state(repo, status, write):
             raise Untranslatable("control flow with early exits in the commit phase")
         body += "Definition p_store_picture (a_self : state) (a_np : decoded_picture) : state :=\n  %s.\n" % em.finish(code)
         status[keys[0]] = "ok"
+        # the prologue: from the header to the macroblock counts
+        key = "parser.p_prologue"
+        try:
+            last = max([i for i, st in enumerate(prefix) if st[0] == "let" and st[1] == ("pid", "level_dimensions")], default=None)
+            if last is None:
+                raise Untranslatable("`let level_dimensions` not found")
+            pro = prefix[:last + 1]
+            em3 = PEmitter(defs, {"OPPTYPE_OPTIONS": ("static", "opptype_options", "PictureOption"),
+                                  "MPPTYPE_OPTIONS": ("static", "mpptype_options", "PictureOption")}, {})
+            em3.fname = "p_prologue"
+            em3.rty = None
+            env3 = {"self": ("a_self", "H263State"),
+                    "self.last_picture": ("(last_picture a_self)", ("opt", "u16")),
+                    "self.reference_picture": ("(reference_picture a_self)", ("opt", "u16")),
+                    "self.running_options": ("(running_options a_self)", "PictureOption"),
+                    "self.reference_states": ("(reference_states a_self)", "PictureMap"), "$reader": ("r0", "reader")}
+            names = ["next_picture", "next_running_options", "format", "output_dimensions", "mb_per_line", "mb_height", "level_dimensions"]
+            def fin3(a, t, envx):
+                return "Ok ((%s), %s)" % (", ".join(envx[n][0] for n in names), envx["$reader"][0])
+            code3 = em3.stmts(pro, 0, None, env3, fin3, None)
+            rt3 = "(picture * Z * source_format * (Z * Z) * Z * Z * (Z * Z))"
+            lt, ln, code3 = em3.resolve_lifted(code3, rt3)
+            body += "\n" + "".join(em3.finish(l) + "\n" for l in lt)
+            body += "Definition p_prologue (a_self : state) (r0 : reader) : res (%s * reader) :=\n  %s.\n" % (rt3, em3.finish(code3))
+            body = body.replace("From H263V Require Import base.Prelude base.Checked model.Types", "From H263V Require Import model.F64.\nFrom H263V Require Import base.Prelude base.Checked model.Types", 1) if "model.F64" not in body else body
+            status[key] = "ok"
+        except Untranslatable as ex:
+            body += "\n(* p_prologue: untranslatable: %s *)\n" % str(ex).replace("*)", "* )")
+            status[key] = "untranslatable: %s" % ex
         # the two look-ups of the state
         for fn in ("get_last_picture", "get_reference_picture"):
             key = "parser.p_" + fn
